@@ -130,6 +130,14 @@ prop("C08",
                   "spa-raised events presuppose a spa object; RUNNING_SPA_WATER_CARE_ERROR presupposes a facade; CONNECTION_STARTED presupposes a configured identifier (ReconnectButton needs unique_id)"],
      explanation="_handle_event compared with the lifecycle table for every event in every invariant state (ground enumeration through the real code), delivery-point assertions in the abstract handle_event, ready/teardown ghost bracket, try/finally brackets of locate/connect incl. exceptional exits, reset post-state")
 
+prop("C09",
+     level="proof",
+     assumptions=["PARTIAL claim. NOT decided: that the per-step contracts compose to 'CONNECTED within a bounded time once the network is healthy' for every fault script and task schedule (a liveness property of ~10 tasks, the event loop and the network: no per-function contract expresses it), and that the facade values then mirror the spa (per connection that is C01/C05/C11)",
+                  "decided per step, for every state / time / reply pattern: detection (ping loop iteration under a ghost clock), trigger (lifecycle table + reset, shared with C08), restart (sequence pump iteration from every manager state), refresh reporting, and the absence of dead-end lifecycle states",
+                  "asyncio.sleep / config_sleep(d) return within d + J, J = 0.05 s (ASSUMED); the engine's attempt time bound is C06's",
+                  "the locate / connect phases are stand-ins in the pump harness (their brackets are C08's, shared here); a phase raising is modelled by OSError / RuntimeError"],
+     explanation="the recovery argument broken into contracts on the real functions: _ping_loop (silence reported in the iteration in which the timeout elapses, answer reported and time-stamped), _handle_event table and async_reset (shared with C08), _sequence_pump (locates exactly when IDLE without descriptors, connects exactly when LOCATED with identifier and no facade, only cancellation ends it), _refresh_loop (exhaustion reported, nothing sent when it must keep quiet), no dead-end state")
+
 prop("C10",
      level="proof",
      budget={"quick": 60, "thorough": 300},
